@@ -104,7 +104,7 @@ func Fill
   ensures[allpos] forall p :: {at(slice, p)} inrange(slice, p) ==> at(slice, p) == value
   assigns elems(slice)
   loop 0 invariant 1 <= i
-  loop 0 invariant forall k :: 0 <= k && k < min(i, len(slice)) ==> slice[k] == value
+  loop 0 invariant forall p :: {at(slice, p)} off(slice) <= p && p < off(slice) + min(i, len(slice)) ==> at(slice, p) == value
 
 func Repeat
   property C12
